@@ -644,3 +644,15 @@ def common_rows_from_json(rows):
             return object()
         return c
     return [[cell(c) for c in r] for r in rows]
+
+
+def shrink(inp, fails, budget_s):
+    """row-wise well-formed grids: fewer data rows (the four header rows stay) with the same verdict"""
+    info = inp.get("info")
+    if inp.get("stream") != "c" or not info or info.get("transposed") or len(inp["cells"]) <= 5:
+        return None
+
+    def mk(data):
+        return dict(inp, cells=inp["cells"][:4] + data, info=dict(info, n_row=len(data)))
+    data = common.ddmin(inp["cells"][4:], lambda d: fails(mk(d)), budget_s)
+    return mk(data)
